@@ -1619,9 +1619,6 @@ Qed.
 Lemma acts_app : forall a l1 l2, acts a (l1 ++ l2) = acts (acts a l1) l2.
 Proof. intros. unfold acts. apply fold_left_app. Qed.
 
-Definition when_op (neg : bool) (sts : list nat) (ctx : option nat) : sop :=
-  if neg then OWhenNot sts ctx else OWhen sts ctx.
-
 (* the state right after a plain When / WhenNot call: either the condition
    holds on the told activity and the shared closed channel is returned, or a
    live binding with the same state set answers for the call *)
